@@ -363,12 +363,15 @@ def precedence_rule(ctx, rid):
     ctx.touch(pc, g)
     # symbolic evaluation of the successive dict merges of the variable returned
     order = None
-    rets = [n for n in g.nodes if n.kind == "stmt" and isinstance(n.ast, ast.Return) and n.ast.value is not None]
-    need(len(rets) == 1 and isinstance(rets[0].ast.value, ast.Name), "idiom changed: parse_constants return")
-    var = rets[0].ast.value.id
+    from ..flow import Flow, NOTNONE
+    flp = Flow(g, {"self.runner": NOTNONE, "runner": NOTNONE}).run()
+    rets = [n for n in g.nodes if n.id in flp.visited and n.kind == "stmt" and isinstance(n.ast, ast.Return) and n.ast.value is not None]
+    need(len(rets) == 1, "idiom changed: parse_constants return")
+    rv = rets[0].ast.value
+    var = rv.id if isinstance(rv, ast.Name) else (pc.positional[1] if len(pc.positional) > 1 else "constants")
     layers = ["<explicit>"]
-    # walk the straight-line assignments to var in source order
-    assigns = [n for n in g.nodes if n.kind == "stmt" and isinstance(n.ast, ast.Assign) and len(n.ast.targets) == 1 and norm(n.ast.targets[0]) == var]
+    # walk the straight-line assignments to var (on the path with a runner attached) in source order
+    assigns = [n for n in g.nodes if n.id in flp.visited and n.kind == "stmt" and isinstance(n.ast, ast.Assign) and len(n.ast.targets) == 1 and norm(n.ast.targets[0]) == var]
     assigns.sort(key=lambda n: n.lineno)
     for a in assigns:
         v = a.ast.value
@@ -384,6 +387,14 @@ def precedence_rule(ctx, rid):
                 new += layers
             else:
                 new.append(l)
+        layers = new
+    if not isinstance(rv, ast.Name):
+        ml = _merge_layers(rv, pc)
+        if ml is None:
+            raise AnalysisError("idiom changed: parse_constants returns `%s`" % norm(rv)[:80])
+        new = []
+        for l in ml:
+            new += layers if l == var else [l]
         layers = new
     def cls(l):
         if l == "<explicit>":
@@ -437,6 +448,13 @@ def precedence_rule(ctx, rid):
 
 
 # ---------------------------------------------------------------- settings record
+def dict_literal(e):
+    """`dict(a=1, b=2)` / `dict(a=1, **m)` as the equivalent dict display"""
+    if isinstance(e, ast.Call) and isinstance(e.func, ast.Name) and e.func.id == "dict" and not e.args:
+        return ast.Dict(keys=[ast.Constant(k.arg) if k.arg is not None else None for k in e.keywords], values=[k.value for k in e.keywords])
+    return e
+
+
 def record_table(ctx):
     """The settings record written by Crop.save_info as {key: value text},
     expanding ``**{a: getattr(self, a) for a in CONSTANT_TUPLE}``; and the
@@ -455,6 +473,7 @@ def record_table(ctx):
             if isinstance(a0, ast.Name):
                 d = single_def(si, a0.id)
                 a0 = d[1] if d else a0
+            a0 = dict_literal(a0)
             if isinstance(a0, ast.Dict):
                 rec = a0
     need(rec is not None, "idiom changed: save_info does not write a dict display")
